@@ -33,7 +33,7 @@ CONSTANTS MaxDepth,     \* nesting of composite types in generated shapes
           Emit
 
 AllLeaves == {"bool","int","int8","int16","int32","int64","uint","uint8","uint16","uint32","uint64","float32","float64",
-              "string","bytes","number","raw","time","any",
+              "string","bytes","number","raw","time","any","nany","iface",   \* nany: a named empty interface type; iface: an interface type with a method
               "M_val","M_ptr","TM_val","TM_ptr","MU_both","TMK"}        \* named types of the harness library
 AllWrappers == {"ptr","slice","array2","mapstr","mapint","maptm","struct1","structopt"}
 
@@ -62,7 +62,7 @@ Spec == Init /\ [][Next]_vars
 RECURSIVE BaseKind(_)
 BaseKind(sh) == sh.k
 HasEmpty(sh) == sh.k \in {"bool","int","int8","int16","int32","int64","uint","uint8","uint16","uint32","uint64",
-                          "float32","float64","string","bytes","number","raw","any","ptr","slice","mapstr","mapint","maptm"}
+                          "float32","float64","string","bytes","number","raw","any","nany","iface","ptr","slice","mapstr","mapint","maptm"}
                 \* arrays of length 2, structs and time.Time are never empty; raw/number/bytes are strings or slices
 StringOptionApplies(sh) ==
   sh.k \in {"bool","int","int8","int16","int32","int64","uint","uint8","uint16","uint32","uint64","float32","float64","string","number"}
